@@ -1,11 +1,19 @@
 """C01 -- sequence files round-trip (FASTA, Stockholm, SJSON, GFF3 + ##FASTA):
 cases, implementation driver, model terms, property oracle."""
 import io, os, re, json, itertools, tempfile, shutil
-from framework import coq_bs, coq_N, coq_opt, coq_list, coq_pair
+from framework import coq_bs, coq_N, coq_opt, coq_list, coq_pair, coq_nat
 
 ID = 'C01'
 COQ_IMPORTS = ['C01_Model']
 GENERATORS = ['gen_codes', 'gen_c01_io']
+MODELLED_FUNCS = {
+    'sugar/_io/fasta.py': ['_create_bioseq', '_id_from_header', 'iter_fasta', 'append_fasta'],
+    'sugar/_io/stockholm.py': ['read_stockholm', 'write_stockholm'],
+    'sugar/_io/sjson.py': ['_SJSONEncoder.default', '_json_hook', 'read_sjson', 'write_sjson'],
+    'sugar/_io/gff.py': ['read_gff', 'write_gff'],
+    'sugar/_io/main.py': ['read', 'write'],
+    'sugar/core/seq.py': ['BioSeq.__init__'],
+}
 FMTS = ['fasta', 'stockholm', 'sjson', 'gff']
 EXT = {'fasta': 'fasta', 'stockholm': 'stk', 'sjson': 'sjson', 'gff': 'gff'}
 OPS = {'cycle': 0, 'append': 1, 'read': 2}
@@ -182,6 +190,19 @@ def g_seqs(rng, lo=1, hi=6, fmt=None):
     return seqs
 
 
+def g_fts(rng, seqs):
+    """plain single-location features on (mostly) existing sequence ids"""
+    fts = []
+    for _ in range(rng.choice([1, 1, 2, 3, 5])):
+        i = rng.choice(seqs)[0] if rng.random() < 0.9 else g_id(rng)
+        if not i or not all(33 <= ord(ch) < 127 for ch in i):
+            i = 'nosuchseq'
+        a = rng.choice([0, 0, 1, 2, 9, 99, 999, 3000])
+        e = a + rng.choice([1, 1, 2, 3, 10, 1000])
+        fts.append([i, rng.choice(['gene', 'CDS', 'exon', 'FASTA', 'region_1', '##FASTA', 'five_prime_UTR']), a, e, rng.choice('+-.?')])
+    return fts
+
+
 def wrap(s, w):
     return [s[i:i + w] for i in range(0, len(s), w)] or ['']
 
@@ -268,7 +289,7 @@ def g_gff_text(rng):
 
 def gen_cases(rng, tier):
     cases = []
-    vias = ['str', 'str', 'path', 'ext', 'handle', 'sio']
+    vias = ['str', 'str', 'path', 'ext', 'handle', 'sio', 'auto']
     n_cycle, n_app, n_read = (12000, 2000, 9000) if tier == 'thorough' else (550, 120, 500)
     # a few fixed regression shapes
     for fmt in FMTS:
@@ -277,7 +298,10 @@ def gen_cases(rng, tier):
     cases += kw_cases(rng, tier)
     for _ in range(n_cycle):
         fmt = rng.choice(FMTS)
-        cases.append({'op': 'cycle', 'fmt': fmt, 'seqs': g_seqs(rng, fmt=fmt), 'via': rng.choice(vias)})
+        c = {'op': 'cycle', 'fmt': fmt, 'seqs': g_seqs(rng, fmt=fmt), 'via': rng.choice(vias)}
+        if fmt == 'gff' and rng.random() < 0.6:
+            c['fts'] = g_fts(rng, c['seqs'])
+        cases.append(c)
     for _ in range(n_app):
         fmt = 'fasta' if rng.random() < 0.8 else rng.choice(FMTS)
         cases.append({'op': 'append', 'fmt': fmt, 'seqs': g_seqs(rng, lo=0, hi=3), 'seqs2': g_seqs(rng, lo=0, hi=3)})
@@ -338,6 +362,11 @@ def canon_text(fmt, text):
     return text
 
 
+def _drop_ft_lines(text):
+    head, sep, tail = text.partition('##FASTA')
+    return ''.join(l for l in head.splitlines(True) if l.startswith('#') or not l.strip()) + sep + tail
+
+
 def mk_basket(seqs):
     from sugar import BioSeq, BioBasket
     out = []
@@ -384,7 +413,7 @@ def do_write(b, fmt, via, d, mode='w', name='f'):
     p = d.path(name + '.' + EXT[fmt])
     if via == 'path':
         b.write(p, fmt, mode=mode)
-    elif via == 'ext':
+    elif via in ('ext', 'auto'):
         b.write(p, mode=mode)
     else:
         with open(p, mode) as f:
@@ -404,8 +433,16 @@ def do_read(text, fmt, via, d):
         with open(p, 'w', newline='') as f:
             f.write(text)
         if via == 'handle':
+            comments = []
+            kw = {} if fmt == 'sjson' else {'comments': comments}
             with open(p) as f:
-                return read(f, fmt)
+                b = read(f, fmt, **kw)
+            if fmt == 'fasta':      # the optional comments list receives exactly the ';' lines
+                want = [l for l in re.split(r'\r\n|\r|\n', text) if l.startswith(';')]
+                assert [c.rstrip('\n') for c in comments] == want, 'comments=%r, file has %r' % (comments, want)
+            return b
+        if via == 'auto':           # format detected from the content (main.py:309)
+            return read(p)
         return read(p, fmt)
     except json.JSONDecodeError as e:
         raise ValueError(str(e))
@@ -417,6 +454,14 @@ def impl(case):
     with _Tmp() as d:
         if op == 'cycle':
             b0 = mk_basket(case['seqs'])
+            if case.get('fts'):
+                from sugar.core.fts import Feature, Location, FeatureList
+                fl = []
+                for i, ty, a, e, st in case['fts']:
+                    ft = Feature(ty, [Location(a, e, strand=st)])
+                    ft.seqid = i
+                    fl.append(ft)
+                b0.fts = FeatureList(fl)
             t1 = do_write(b0, fmt, via, d)
             o1 = do_read(t1, fmt, via, d)
             r1 = objs(o1)
@@ -445,6 +490,8 @@ def impl(case):
         o2 = do_read(t2, fmt, via, d)
         r2 = objs(o2)
         t3 = do_write(o2, fmt, 'str', d)
+        if fmt == 'gff':        # features read from a foreign file are re-written by C02's code; only the rest is observed
+            t2, t3 = _drop_ft_lines(t2), _drop_ft_lines(t3)
         return [r1, canon_text(fmt, t2), r2, canon_text(fmt, t3), bool(o1 == o2)]
 
 
@@ -455,9 +502,17 @@ def coq_seqs(seqs):
 
 
 def model_term(case):
-    return 'out (run_C01 %s %s %s %s %s)' % (coq_N(OPS[case['op']]), coq_N(FMTS.index(case['fmt'])),
-                                             coq_seqs(case.get('seqs', [])), coq_seqs(case.get('seqs2', [])),
-                                             coq_bs(case.get('text', '')))
+    fts = coq_list([coq_pair(coq_bs(i), coq_bs(t), coq_nat(a), coq_nat(e), '"%s"%%byte' % st) for i, t, a, e, st in case.get('fts', [])])
+    return 'out (run_C01 %s %s %s %s %s %s)' % (coq_N(OPS[case['op']]), coq_N(FMTS.index(case['fmt'])),
+                                                coq_seqs(case.get('seqs', [])), coq_seqs(case.get('seqs2', [])), fts,
+                                                coq_bs(case.get('text', '')))
+
+
+def valid_case(case):
+    for ft in case.get('fts', []):
+        if len(ft) != 5 or len(ft[4]) != 1 or ft[2] >= ft[3] or ft[4] not in '+-.?':
+            return False
+    return True
 
 
 def split_model(case, m):
@@ -585,6 +640,8 @@ def _marks(case, got):
             ms.append('via-' + case['via'])
         if op == 'append':
             ms.append('append')
+        if case.get('fts'):
+            ms.append('features')
     else:
         t = case['text']
         ls = re.split(r'\r\n|\r|\n', t)
@@ -702,23 +759,88 @@ def extra_checks(rng, tier, cov):
             if why:
                 yield {'case': case, 'impl': [t1[:300], t2[:300]], 'spec': why, 'noshrink': True, 'model': None, 'wf': True, 'evaluated': False}
     cov['relational_roundtrips'] = done
+    n_edge = 0
+    try:
+        for name, why in _edge_checks():
+            n_edge += 1
+            if why:
+                yield {'case': {'op': 'edge', 'name': name}, 'impl': None, 'spec': '%s: %s' % (name, why), 'noshrink': True,
+                       'model': None, 'wf': True, 'evaluated': False}
+    except Exception as e:
+        yield {'case': {'op': 'edge', 'name': 'edge checks'}, 'impl': {'e': type(e).__name__}, 'spec': 'edge checks raised %s: %s' % (type(e).__name__, e),
+               'noshrink': True, 'model': None, 'wf': True, 'evaluated': False}
+    cov['api_edge_checks'] = n_edge
+
+
+def _edge_checks():
+    """API edges of the modelled functions that no basket/text case reaches; each returns None or a complaint"""
+    from sugar import BioSeq, BioBasket, read
+    from sugar.core.fts import Feature, Location, FeatureList
+
+    def raises(exc, fn):
+        try:
+            fn()
+        except exc:
+            return None
+        except Exception as e:
+            return 'raised %s instead of %s' % (type(e).__name__, exc.__name__)
+        return 'did not raise %s' % exc.__name__
+    b = BioBasket([BioSeq('ACGT', id='a'), BioSeq('MKV*', id='b')])
+    with _Tmp() as d:
+        yield 'read undetectable', raises(IOError, lambda: read(io.StringIO('no known format\n')))
+        yield 'write unknown extension', raises(IOError, lambda: b.write(d.path('x.unknownext')))
+        yield 'read tool', raises(ValueError, lambda: read(io.StringIO('>a\nAC\n'), 'fasta', tool='nosuchtool'))
+        yield 'write tool', raises(ValueError, lambda: b.write(d.path('t.fasta'), 'fasta', tool='nosuchtool'))
+        # neither 'a' nor 'w' in mode and no write_fasta: the third branch of the dispatch (model: write_dispatch f false false)
+        yield 'write mode x', raises(RuntimeError, lambda: b.write(d.path('m.fasta'), 'fasta', mode='x'))
+    # SJSON with features: Feature / Location / Strand / Defect branches of the encoder
+    fb = BioBasket([BioSeq('ACGTACGT', id='a'), BioSeq('MKV*', id='b')])
+    ft = Feature('gene', [Location(1, 4, strand='-'), Location(5, 7, strand='-')])
+    ft.seqid = 'a'
+    ft.locs[0].meta.note = 'x'        # Location metadata branch of the encoder
+    fb.fts = FeatureList([ft])
+    o = BioBasket.fromfmtstr(fb.tofmtstr('sjson'), fmt='sjson')
+    ok = ([(s.id, s.data) for s in o] == [('a', 'ACGTACGT'), ('b', 'MKV*')] and len(o.fts) == 1
+          and sorted((l.start, l.stop, str(l.strand)) for l in o.fts[0].locs) == [(1, 4, '-'), (5, 7, '-')])
+    yield 'sjson with features', None if ok else 'sequences/features changed: %r %r' % ([(s.id, s.data) for s in o], o.fts)
+    bad = BioBasket([BioSeq('AC', id='a')])
+    bad[0].meta.obj = object()
+    yield 'sjson unknown object', raises(TypeError, lambda: bad.tofmtstr('sjson'))
+    foreign = ('{"_fmtcomment": "sugar JSON format written by hand", "data": [{"data": "acgt", "meta": {"id": "x", '
+               '"extra": {"k": "v"}, "_cls": "Meta"}, "type": "nt", "_cls": "BioSeq"}], "meta": {"_cls": "Meta"}, "_cls": "BioBasket"}')
+    o = BioBasket.fromfmtstr(foreign, fmt='sjson')
+    yield 'sjson plain object', None if [(s.id, s.data, s.meta.extra['k']) for s in o] == [('x', 'ACGT', 'v')] else 'got %r' % o
+    # BioSeq(data) with data carrying its own metadata (seq.py:216-219)
+    s0 = BioSeq('acgt', id='orig')
+    s1 = BioSeq(s0)
+    yield 'BioSeq(BioSeq)', None if (s1.id, s1.data) == ('orig', 'ACGT') else 'got %r' % ((s1.id, s1.data),)
+    s2 = BioSeq({'meta': {'id': 'frommap'}})
+    yield 'BioSeq(mapping)', None if s2.id == 'frommap' else 'got id %r' % (s2.id,)
 
 
 LEVEL_TEXT = ('Machine-checked Coq theorems about an executable model of the readers/writers: for every basket in the stated domain '
-              'and each of FASTA, Stockholm, GFF3+##FASTA, SJSON (tree level), write->read returns the same count, order, ids and '
-              'residues, and the objects read back are written and read as themselves (objects equal, bytes identical from the '
-              'second text on; C01_roundtrip_all, C01_format_cycle); the FASTA reader is insensitive to wrapping at any width, '
-              'blank and ";" lines inside records and before the first header, and case (C01_fasta_rewrap, C01_wrap_payload, '
-              'C01_payload_insert, C01_fasta_leading_skip); "id '
-              'description" headers are re-written verbatim; mode "a" equals writing the concatenated basket; the id extractor is '
-              'idempotent and any FASTA text of the reader domain reaches the fixpoint after the first written text '
-              '(C01_fasta_reader_fixpoint). The model is tied to sugar by differential testing through the public entry points.')
+              'and each of FASTA, Stockholm, GFF3+##FASTA (also with plain features in front of the sequence section), SJSON (tree '
+              'level), write->read returns the same count, order, ids and residues, and the objects read back are written and read '
+              'as themselves (objects equal, bytes identical from the second text on; C01_roundtrip_all, C01_format_cycle, '
+              'C01_gff_fts_roundtrip); the FASTA reader is insensitive to wrapping at any width, blank and ";" lines inside records '
+              'and before the first header, and case (C01_fasta_rewrap, C01_wrap_payload, C01_payload_insert, '
+              'C01_fasta_leading_skip); "id description" headers are re-written verbatim in any position; mode "a" equals writing '
+              'the concatenated basket; the id extractor is idempotent; any FASTA, GFF3+##FASTA or Stockholm text of the reader '
+              'domain reaches the fixpoint with the first written text (C01_*_reader_fixpoint); interleaved Stockholm blocks '
+              'are read as per-id concatenations (C01_stk_interleave). The model is tied to sugar by differential testing '
+              'through the public entry points on every run.')
 LEVEL_NOTE = ('Trusted: Coq kernel/vm_compute, translator (G_codes, G_c01_io), correspondence harness, CPython text layer, re, json. '
               'Modelled rather than verified: BioSeq.__init__, fasta.py, stockholm.py sequence lines, sjson.py at tree level, '
-              'gff.py sequence section, write()/read() dispatch; Python str limited to Latin-1, domain printable ASCII. '
+              'gff.py sequence section plus the acceptance test / rendering of plain single-location feature lines, write()/read() '
+              'dispatch; Python str limited to Latin-1, domain printable ASCII. '
               'Domain restrictions: FASTA/GFF ids are fixed points of the id extractor without , | ; and not starting with ">"; '
-              'Stockholm ids distinct, not starting with "#" or "//", rows non-empty; residues are upper-cased by BioSeq(). '
-              'Reader-side fixpoint is proved for FASTA; '
-              'for GFF and Stockholm reader-side texts, GFF baskets with features, and the transports it is tested only. '
+              'Stockholm ids distinct, not starting with "#" or "//", rows non-empty; residues are upper-cased by BioSeq(); '
+              'GFF features: single location, seqid not ".", distinct sequence ids. '
+              'Tested only (not proved): transports (path, handle, StringIO, extension and content detection), SJSON byte level '
+              '(json text layer), SJSON/GFF feature content (C14/C02), the OS appending bytes in mode "a". '
+              'Statement coverage of the modelled functions in the quick tier is complete except: def lines (executed at import, '
+              'before measurement), main.py:314-316,403-404 (tool="biopython", Bio not installed), main.py:326 (no sequence plugin '
+              'lacks both read_ and iter_), sjson.py:28,30 (Strand/Defect are str/int subclasses and are serialised natively, '
+              'default() is never called for them), sjson.py:56 (isinstance(cls, (Strand, Defect)) on a class is always False). '
               'All theorems closed under the global context (no axioms).')
 TECHNIQUE = 'Coq proof over an executable model + differential correspondence on generated and corpus cases'
